@@ -411,10 +411,10 @@ PROPERTIES["C13"] = {
     "level_text": "bounded symbolic verification: on concrete grids, for EVERY landscape (the evaluation callback returns symbolic reals: unconstrained with all orderings explored by forking on small grids, or order-constrained by a rank function on large ones) both tuners evaluate only grid points, none twice, at most max_evals + 3^d of them, reject non-finite values, and return the evaluations sorted with the true minimum first; the surrogate tuner's inner solver is an arbitrary-point oracle",
     "level_note": SRE_NOTE + "; unit C13_surrogate replaces solver_t::minimize by an oracle returning a state at an arbitrary symbolic point (covers every inner-solver behaviour)",
     "technique": SRE_TECH,
-    "explanation": "C13 (first sentence): real tuner_t::optimize for local-search and surrogate tuners with a recording callback.",
+    "explanation": "C13: real tuner_t::optimize for local-search and surrogate tuners with a recording callback; real ml::tune driver (k-fold splitter, local-search tuner, result_t) with a recording model callback returning symbolic error/loss tensors.",
     "assumptions": SRE_ASSUME + ["grids are concrete (sizes listed per configuration), callback values boxed to [-100,100]"],
     "bounds": {"grids": "1-3 grids of 2..31 values (linear and log10)", "max_evals": "10..20", "free landscapes": "<= 5 points in 1-D, 2x2 in 2-D (all orderings)", "ranked landscapes": "corner / center / edge / plateau argmin shapes"},
-    "outside": ["ml::tune driver: exactly-once (trial, fold) callback under the internal thread pool, (trial, fold) decode (integer code in allocating functions + threads)",
+    "outside": ["ml::tune under OS threads (unit C13_tune runs the real driver with the inline pool: exactly-once (trial, fold) callback, fold indices, storage slots and optimum trial are covered; schedules are not)",
                 "landscapes outside the enumerated rank shapes on grids with more than 5 points"],
     "units": [
         {"engine": "sre", "harness": "C13_tuner", "sources": ["C13_tuner.cpp"],
@@ -430,6 +430,13 @@ PROPERTIES["C13"] = {
          "thorough": ["tuner=surrogate;g=%s;land=%s;evals=%d" % (g, l, e) for g in ("5", "7", "4,3", "5,5", "31") for l in ("corner", "center", "plateau") for e in (10, 20)] + ["tuner=surrogate;g=%s;land=free" % g for g in ("2", "3", "4")],
          "budget": {"quick": {"deadline_s": 60, "max_paths": 20000}, "thorough": {"deadline_s": 900, "max_paths": 400000}},
          "encoded": _C13_ENC},
+        {"engine": "sre", "harness": "C13_tune", "sources": ["C13_tune.cpp"],
+         "quick": ["n=4;folds=2;g=3;evals=10;per=1", "n=5;folds=3;g=5;evals=10;per=1", "n=4;folds=2;g=7;evals=10;per=1;order=1", "n=4;folds=2;g=0", "n=4;folds=2;g=2;evals=10;per=2", "n=6;folds=3;g=9;evals=10;per=1;order=1"],
+         "thorough": ["n=%d;folds=%d;g=%d;evals=%d;per=1;order=%d" % (n, f, g, e, o) for (n, f, g, e, o) in ((4, 2, 3, 10, 0), (5, 3, 5, 10, 0), (4, 2, 7, 10, 1), (6, 3, 9, 10, 1), (6, 2, 6, 10, 0), (4, 2, 4, 20, 0), (5, 2, 13, 12, 1), (8, 4, 4, 10, 0))] +
+                     ["n=4;folds=2;g=0", "n=6;folds=3;g=0;per=2", "n=4;folds=2;g=2;evals=10;per=2", "n=4;folds=2;g=3;evals=10;per=2"],
+         "budget": {"quick": {"deadline_s": 60, "max_paths": 20000}, "thorough": {"deadline_s": 900, "max_paths": 400000}},
+         "encoded": ["nano::ml::tune", "nano::ml::result_t::{add, store, stats, value, values, extra, params, closest_trial, optimum_trial}", "nano::ml::params_t::{splitter, tuner, log}", "nano::kfold_splitter_t::split",
+                     "nano::local_search_tuner_t::do_optimize (through the driver)", "nano::parallel::pool_t::map (inline pool)", "nano::ml::store_stats"]},
     ],
 }
 
